@@ -347,30 +347,22 @@ func (c *Ctx) getValueSites() []getValueSite {
 				return true
 			}
 			sel := call.Fun.(*ast.SelectorExpr)
+			// the construct is named by where the map and the key come from (receiver field, i-th parameter, element of
+			// a collection, result of a call), not by the names the function happens to give its locals
+			keyStr := c.stableExpr(f, call.Args[0], stack)
 			origin := "expression"
-			if id, ok := ast.Unparen(call.Args[0]).(*ast.Ident); ok {
-				obj := pk.TypesInfo.Uses[id]
-				origin = "variable " + id.Name
-				// parameter?
-				for _, fl := range f.Decl.Type.Params.List {
-					for _, nm := range fl.Names {
-						if pk.TypesInfo.Defs[nm] == obj {
-							origin = "parameter " + id.Name
-						}
-					}
-				}
-				// range variable?
-				for i := len(stack) - 1; i >= 0; i-- {
-					if rs, ok := stack[i].(*ast.RangeStmt); ok {
-						for _, v := range []ast.Expr{rs.Key, rs.Value} {
-							if vid, ok := v.(*ast.Ident); ok && pk.TypesInfo.Defs[vid] == obj {
-								origin = "ranges over " + exprString(rs.X)
-							}
-						}
-					}
+			switch {
+			case strings.HasPrefix(keyStr, "param#"):
+				origin = "parameter"
+			case strings.HasPrefix(keyStr, "elem of "):
+				origin = "ranges over " + strings.TrimPrefix(keyStr, "elem of ")
+				keyStr = "elem"
+			default:
+				if _, ok := ast.Unparen(call.Args[0]).(*ast.Ident); ok {
+					origin = "variable"
 				}
 			}
-			out = append(out, getValueSite{f: f, call: call, recv: exprString(sel.X), keyStr: exprString(call.Args[0]), origin: origin, stack: append([]ast.Node(nil), stack...)})
+			out = append(out, getValueSite{f: f, call: call, recv: c.stableExpr(f, sel.X, stack), keyStr: keyStr, origin: origin, stack: append([]ast.Node(nil), stack...)})
 			return true
 		})
 	}
